@@ -1,0 +1,31 @@
+//go:build verif
+
+package floatingip
+
+// Contracts for the verification framework in /verif (comment-only; see /verif/DESIGN.md).
+
+// ---- C20: configuration validation -------------------------------------------------------------
+
+//@ func [C20,C18] fipCheck
+//@   requires fip != nil
+//@   requires forall i int :: 0 <= i && i < len(fip.IPRanges) ==> nets.wfRange(fip.IPRanges[i])
+//@   ensures [C20:ranges-inside-subnet] result == nil ==> forall i int :: 0 <= i && i < len(fip.IPRanges) ==> inNet(fip.Gateway, fip.Mask, fip.IPRanges[i].First) && inNet(fip.Gateway, fip.Mask, fip.IPRanges[i].Last)
+//@   ensures [C20:ranges-sorted-disjoint-unmergeable] result == nil ==> nets.sortedGap(fip.IPRanges)
+//@   modifies nothing
+//@   loop 0 invariant forall j int :: 0 <= j && j < idx ==> inNet(fip.Gateway, fip.Mask, fip.IPRanges[j].First) && inNet(fip.Gateway, fip.Mask, fip.IPRanges[j].Last)
+//@   loop 0 invariant forall j int :: 1 <= j && j < idx ==> nets.val(fip.IPRanges[j].First) > nets.val(fip.IPRanges[j-1].Last) + 1
+
+//@ func [C20,C18] (*FloatingIPPool).Contains
+//@   ensures [C20] result <==> exists i int :: 0 <= i && i < len(fip.IPRanges) && nets.val(fip.IPRanges[i].First) <= nets.val(ip) && nets.val(ip) <= nets.val(fip.IPRanges[i].Last)
+//@   modifies nothing
+//@   loop 0 invariant forall j int :: 0 <= j && j < idx ==> !(nets.val(fip.IPRanges[j].First) <= nets.val(ip) && nets.val(ip) <= nets.val(fip.IPRanges[j].Last))
+
+//@ func [C20,C18] Minus
+//@   ensures [C20] result == nets.val(a) - nets.val(b)
+//@   modifies nothing
+
+// walkIPRanges terminates for every list of well-formed ranges (C18: cannot wedge; C08/C20: it
+// enumerates each range once). The measure is taken over the integers.
+//@ func [C20,C18,C08] walkIPRanges
+//@   requires forall i int :: 0 <= i && i < len(ranges) ==> nets.wfRange(ranges[i])
+//@   loop 1 decreases last - first
